@@ -35,6 +35,7 @@ type editEvent struct {
 	Recalc   bool   `json:"recalc"`   // Calculate succeeded
 	Changed2 bool   `json:"changed2"` // content after recalculation differs from the original
 	DigDiff  bool   `json:"digdiff"`  // digest after recalculation differs from the original digest
+	Reuse    string `json:"reuse"`    // "same" | "differs": the text read into a value that already held the original envelope gives the same document as read into a fresh one
 	Err      string `json:"err"`
 }
 
@@ -279,8 +280,12 @@ func allEdits(m map[string]any, r *rand.Rand, cap int) []editCase {
 	return out
 }
 
+// origText, when set, is the serialised original: the edited text is then also read into a value that already
+// holds the original (a long-lived object being refreshed), which must give the same document as a fresh read
+var editOrigText []byte
+
 func editProbe(w *tr.Writer, name, k, kind, path string, text []byte, origCanon, origDig string) {
-	ev := editEvent{K: k, Doc: name, Kind: kind, Path: path}
+	ev := editEvent{K: k, Doc: name, Kind: kind, Path: path, Reuse: "same"}
 	defer func() {
 		if p := recover(); p != nil {
 			ev.Panic, ev.Err = true, fmt.Sprintf("panic:%v", p)
@@ -299,6 +304,14 @@ func editProbe(w *tr.Writer, name, k, kind, path string, text []byte, origCanon,
 		return
 	}
 	ev.Parse = true
+	if editOrigText != nil {
+		held := new(gobl.Envelope)
+		if json.Unmarshal(editOrigText, held) == nil && json.Unmarshal(text, held) == nil && held.Document != nil {
+			if canonOf(held.Document) != canonOf(env.Document) {
+				ev.Reuse = "differs"
+			}
+		}
+	}
 	ev.Changed = canonOf(env.Document) != origCanon
 	ev.Validate = outcome(env.Validate())
 	if err := env.Calculate(); err != nil {
@@ -380,6 +393,7 @@ func editRun(repo string, seed int64, ngen, capPerDoc, maxDocs int, out string) 
 		}
 		used++
 		origCanon, origDig := canonOf(env.Document), env.Head.Digest.String()
+		editOrigText = b.data
 		var m map[string]any
 		dec := json.NewDecoder(bytes.NewReader(b.data))
 		dec.UseNumber()
@@ -423,7 +437,8 @@ func editRun(repo string, seed int64, ngen, capPerDoc, maxDocs int, out string) 
 	for c := 1; c < 0x20; c++ {
 		ctl = append(ctl, "A"+string(rune(c))+"B")
 	}
-	for _, x := range []string{"A\u00010B", "A\u00011B", "A\u0001FB", "A\u0001fB", "A0B", "AB", "A B", `A\u0010B`, `A\nB`, "A\u007fB", "A\u0080B", "A\u2028B"} {
+	for _, x := range []string{"A\u00010B", "A\u00011B", "A\u0001FB", "A\u0001fB", "A0B", "AB", "A B", `A\u0010B`, `A\nB`, "A\u007fB", "A\u0080B", "A\u2028B",
+		"A\\nB", "A\\tB", "A\\\\B", "A\\\"B", "A\"B", "A\\B", "A\\u0041B", "A/B", "A\\/B"} {
 		ctl = append(ctl, x)
 	}
 	lats := []any{}
@@ -462,6 +477,7 @@ func editRun(repo string, seed int64, ngen, capPerDoc, maxDocs int, out string) 
 			used++
 			origCanon, origDig := canonOf(in.Document), in.Head.Digest.String()
 			data, _ := json.Marshal(in)
+			editOrigText = data
 			for j := range fm.values {
 				if j == i {
 					continue
